@@ -1,3 +1,3 @@
 #!/bin/bash
-# prep_mut.sh Cxx : scratch worktree + prompt for an independent seeded-change agent
-p=$1; mkdir -p /tmp/mut-$p && git -C /repo worktree add -q /tmp/mut-$p/wt HEAD && python3 /verif/tools/mutant_prompt.py $p > /tmp/mut-$p/prompt.txt && echo /tmp/mut-$p ready
+# prep_mut.sh Cxx [round] : scratch worktree + prompt for an independent seeded-change agent
+p=$1; R=${2:-}; mkdir -p /tmp/mut$R-$p && git -C /repo worktree add -q /tmp/mut$R-$p/wt HEAD && python3 /verif/tools/mutant_prompt.py $p $R > /tmp/mut$R-$p/prompt.txt && echo /tmp/mut$R-$p ready
